@@ -16,6 +16,7 @@ package main
 //           infix blocks, multiple assignment, labelled break/continue out of nested lets
 //   mal     a `full` history with one token-level mutation (mostly malformed / ill-typed)
 //   rep     a `full` or `ctx` history served N times by one interpreter
+//   reent   re-entrancy of every scoped control construct (gen_reent.go)
 //   script  (bal only) the repo's tests/*.zy, compile only
 
 import (
@@ -252,6 +253,8 @@ type rg struct {
 	scopesInLoop int
 	uniq         int
 	budget       int
+	self         string // stream reent: the function being defined may call itself …
+	selfArity    int    // … with this many arguments, the first one `(- x 1)` guarded by `(> x 0)` (x is read-only)
 }
 
 func (r *rg) rnd(n int) int           { return r.g.Rng.Intn(n) }
@@ -295,6 +298,9 @@ func (r *rg) ie(d int) string {
 			return v
 		}
 		return r.lit()
+	}
+	if r.self != "" && r.rnd(6) == 0 {
+		return r.selfCall(d)
 	}
 	for try := 0; try < 8; try++ {
 		switch r.rnd(34) {
@@ -370,7 +376,7 @@ func (r *rg) ie(d int) string {
 				m := r.pick(keys(r.macs))
 				args := make([]string, r.macs[m])
 				for i := range args {
-					args[i] = r.ie(d - 1)
+					args[i] = macroArg(r.ie(d - 1))
 				}
 				return fmt.Sprintf("(%s %s)", m, strings.Join(args, " "))
 			}
@@ -432,12 +438,48 @@ func (r *rg) ie(d int) string {
 	return r.lit()
 }
 
+// selfCall: a guarded call of the function being defined (stream reent): direct, through a
+// closure, through map / apply, as a let initialiser (never a tail call) or bare (a tail call
+// when it ends the body)
+func (r *rg) selfCall(d int) string {
+	args := "(- x 1)"
+	for i := 1; i < r.selfArity; i++ {
+		args += " " + r.ie(d-2)
+	}
+	var call string
+	switch r.rnd(7) {
+	case 0:
+		call = fmt.Sprintf("((fn [m] (%s m%s)) (- x 1))", r.self, strings.Repeat(" 0", r.selfArity-1))
+	case 1:
+		call = fmt.Sprintf("(first (map (fn [m] (%s m%s)) [(- x 1)]))", r.self, strings.Repeat(" 1", r.selfArity-1))
+	case 2:
+		call = fmt.Sprintf("(apply %s [(- x 1)%s])", r.self, strings.Repeat(" 2", r.selfArity-1))
+	case 3:
+		call = fmt.Sprintf("(let [%s (%s %s)] (+ 1 %s))", "sv", r.self, args, "sv")
+	default:
+		call = fmt.Sprintf("(%s %s)", r.self, args)
+	}
+	return fmt.Sprintf("(cond (> x 0) %s %s)", call, r.lit())
+}
+
+// macroArg: a BARE dotted symbol (h.b, s1.X, pa.X) handed to a macro is dereferenced when the
+// macro is applied, i.e. while the text is being compiled: in a text that also defines h the
+// expansion fails as a whole ("symbol `h` not found") and succeeds form by form. That is the
+// phase order of macros (expanded when the whole text is compiled), not something an
+// evaluation left behind; the generator does not put a bare dotted symbol in that position.
+func macroArg(a string) string {
+	if i := strings.IndexByte(a, '.'); i > 0 && !strings.ContainsAny(a, "() []{}\"") {
+		return "(+ 0 " + a + ")"
+	}
+	return a
+}
+
 // closedIe: an int expression over globals only (evaluated in another function's context)
 func (r *rg) closedIe(d int) string {
-	save, sl, sr := r.locals, r.labels, r.ro
-	r.locals, r.labels, r.ro = nil, nil, nil
+	save, sl, sr, ss := r.locals, r.labels, r.ro, r.self
+	r.locals, r.labels, r.ro, r.self = nil, nil, nil, ""
 	s := r.ie(d)
-	r.locals, r.labels, r.ro = save, sl, sr
+	r.locals, r.labels, r.ro, r.self = save, sl, sr, ss
 	return s
 }
 
@@ -608,7 +650,7 @@ func (r *rg) st(d int) string {
 			}
 		case 16:
 			if len(r.smacs) > 0 {
-				return fmt.Sprintf("(%s %s %s %s)", r.pick(r.smacs), r.be(d-1), r.st(d-1), r.st(d-1))
+				return fmt.Sprintf("(%s %s %s %s)", r.pick(r.smacs), r.be(d-1), macroArg(r.st(d-1)), macroArg(r.st(d-1)))
 			}
 		case 17:
 			return fmt.Sprintf("(cond %s %s %s)", r.be(d-1), r.st(d-1), r.st(d-1))
@@ -922,6 +964,7 @@ func restStreams(g *Gen, emit func(mode string, texts [][]string, tag string)) {
 		g.Count(fmt.Sprintf("%s forms<=%d", tag, (nforms/4+1)*4))
 		emit(mode, texts, tag)
 	}
+	reentStream(g, emit)
 }
 
 func restGen(g *Gen) {
